@@ -303,7 +303,7 @@ func c16TripCheck(ctx *vfCtx, c c16TripCase) {
 			sig += "/unparsable-entry-earlier-in-deny-list"
 		}
 		ctx.Fail(sig, "server name %q: the %s dialer lets %s %s through, which allow=%q deny=%q do not permit", c.Name, dl.Via, dl.Network, dl.Address, c.Allow, c.Deny)
-		return
+		break
 	}
 
 	// (5) the well-known fetch is a connection too
